@@ -74,10 +74,16 @@ type c05OutCase struct {
 	// Proxied: the error carries the metadata of an upstream gRPC error
 	// (protocol-reserved keys included), as a proxying handler returns it.
 	Proxied bool `json:"proxied,omitempty"`
+	// Wrapped: the handler returns fmt.Errorf("...: %w", codedErr)
+	Wrapped bool `json:"wrapped,omitempty"`
 }
 
 func (k c05OutCase) key() string {
-	return fmt.Sprintf("out/%s/h%d/t%d/resp%v/err%d.%d.%d/req%v/proxied=%v", k.Cfg, k.NHdr, k.NTrl, k.Sizes, k.ErrCode, k.ErrMsg, k.Details, k.ReqSizes, k.Proxied)
+	w := ""
+	if k.Wrapped {
+		w = "/wrapped"
+	}
+	return fmt.Sprintf("out/%s/h%d/t%d/resp%v/err%d.%d.%d/req%v/proxied=%v%s", k.Cfg, k.NHdr, k.NTrl, k.Sizes, k.ErrCode, k.ErrMsg, k.Details, k.ReqSizes, k.Proxied, w)
 }
 
 var c05Msgs = []string{"", "plain", "näh 100% \r\n ☃", strings.Repeat("x", 300)}
@@ -145,6 +151,9 @@ func c05OutCheck(c *ev.Collector, k c05OutCase) {
 			}
 		}
 		if wantErr != nil {
+			if k.Wrapped {
+				return fmt.Errorf("while handling: %w", wantErr)
+			}
 			return wantErr
 		}
 		return nil
@@ -730,6 +739,7 @@ func c05OutCases(thorough bool) []c05OutCase {
 											out = append(out, c05OutCase{Cfg: cfg, NHdr: nh, NTrl: nt, Sizes: rs, ErrCode: ec, ErrMsg: em, Details: det, ReqSizes: qs})
 											if nh == 0 && nt == 0 && ec == 3 {
 												out = append(out, c05OutCase{Cfg: cfg, NHdr: nh, NTrl: nt, Sizes: rs, ErrCode: ec, ErrMsg: em, Details: det, ReqSizes: qs, Proxied: true})
+												out = append(out, c05OutCase{Cfg: cfg, NHdr: nh, NTrl: nt, Sizes: rs, ErrCode: ec, ErrMsg: em, Details: det, ReqSizes: qs, Wrapped: true})
 											}
 										}
 									}
